@@ -101,7 +101,7 @@ pub fn build(items: &[PItem]) -> Vec<(DltMessage, bool)> {
             PItem::Nwst { id, hdr, n, cs, be } => {
                 let mut e = Enc::new(*be);
                 e.ascii("NWST");
-                e.raw(&(*id as u32 % 3).to_le_bytes());
+                e.raw(&(if *id < 3 { *id as u32 } else { 100 + *id as u32 }).to_le_bytes());
                 let hl = [9usize, 10, 12, 5, 0][*hdr as usize % 5];
                 e.raw(&vec![1u8; hl]);
                 e.raw(&[0]);
@@ -159,7 +159,7 @@ pub fn build(items: &[PItem]) -> Vec<(DltMessage, bool)> {
             PItem::Flst { serial, name, size, pkgs, buf, width, be } => {
                 let mut e = Enc::new(*be);
                 e.ascii("FLST");
-                e.int(*serial as u64 % 3, *width, false);
+                e.int(if *serial < 3 { *serial as u64 } else { 100 + *serial as u64 }, *width, false);
                 e.utf8(["a.bin", "", "../x", "/abs/y", "d/e.txt"][*name as usize % 5]);
                 e.int(U64H[*size as usize % U64H.len()], width / 4, false);
                 e.utf8("2024-01-01");
